@@ -330,6 +330,19 @@ pub fn eval_cond(cond: &Cond, t: &TableM, row: &[Val]) -> bool {
                 CmpOp::Ge => c != Ordering::Less,
             }
         }
+        Cond::Arith(col, aop, l, op, rhs) => {
+            let i = t.col_index(col).expect("validated");
+            let v = arith(&row[i], *aop, l);
+            let c = val_cmp(&v, rhs);
+            match op {
+                CmpOp::Eq => c == Ordering::Equal,
+                CmpOp::Ne => c != Ordering::Equal,
+                CmpOp::Lt => c == Ordering::Less,
+                CmpOp::Le => c != Ordering::Greater,
+                CmpOp::Gt => c == Ordering::Greater,
+                CmpOp::Ge => c != Ordering::Less,
+            }
+        }
         Cond::Truthy(col) => row[t.col_index(col).expect("validated")].truthy(),
         Cond::Const(b) => *b,
         Cond::And(a, b) => eval_cond(a, t, row) && eval_cond(b, t, row),
